@@ -604,6 +604,8 @@ class Rewriter:
         if done:
             # drop declarations that are no longer used
             used = {y["ref"]["id"] for y in walk(body) if y["k"] == "DeclRefExpr"}
+            # a local that only a lambda captures is still used: the lambda body is a function of its own
+            used |= {c_.get("id") for y in walk(body) if y["k"] == "LambdaExpr" for c_ in y.get("captures", [])}
 
             def prune(n):
                 if n is None:
